@@ -112,6 +112,22 @@ def numeric_type_ok(x) -> bool:
 
 # ---- line coverage of anchored mechanisms (DESIGN.md §2.6) --------------------------------
 
+def module_functions(mod, prefix=None):
+    """[(label, function)] for every function defined at the top level of `mod` as it is today (memoising wrappers
+    unwrapped): monitors that want 'the planner's functions' ask for them by module, not by a list of private names"""
+    import inspect
+
+    out = []
+    prefix = prefix or mod.__name__.rsplit(".", 1)[-1]
+    for name, f in sorted(vars(mod).items()):
+        g = getattr(f, "__vmon_wrapped__", f)
+        g = getattr(g, "__wrapped__", g)
+        if inspect.isfunction(g) and getattr(g, "__module__", None) == mod.__name__ and getattr(g, "__code__", None) is not None \
+                and g.__code__.co_filename == getattr(mod, "__file__", None):
+            out.append((f"{prefix}.{name}", f))
+    return out
+
+
 class LineWatch:
     """sys.monitoring LINE events with DISABLE after the first hit: which lines of the
     anchored functions the workload actually executed."""
